@@ -168,7 +168,8 @@ impl Property for C17 {
         // covers every one of them several times; the other inputs are drawn
         let n_corpus = gen::corpus_sv_count();
         let systematic = gen::corpus_sv_nth((run as usize).wrapping_mul(7919).wrapping_add(seed as usize) % n_corpus.max(1), 1400);
-        let (mut text, lib) = match rng.below(12) {
+        let (mut text, lib) = match rng.below(14) {
+            12 | 13 => (gen::netlist_program(&mut rng), false),
             0..=5 => (systematic.map(|s| s.to_string()).unwrap_or_else(|| gen::corpus_sv(&mut rng, 1400).to_string()), false),
             6 | 7 => {
                 let k = 1 + rng.usize_below(4);
@@ -179,6 +180,9 @@ impl Property for C17 {
             10 => (gen::corpus_lib(&mut rng).to_string(), true),
             _ => (gen::lib_program(&mut rng), true),
         };
+        if !lib && rng.chance(1, 3) {
+            text = gen::rewrap_nonansi(&text);
+        }
         if rng.chance(1, 4) {
             // near-valid: what one alternative tolerates and memoises, another may replay
             text = gen::punct_edit(&mut rng, &text);
